@@ -28,3 +28,29 @@ func verifPoint(name string) {
 		h.f(name)
 	}
 }
+
+// verifAccess(loc, write) marks an access to one of the shared locations (or, for names that start
+// with "sync:", a synchronisation operation: write=true just before a release such as a channel
+// send, close, WaitGroup.Done or go statement, write=false just after an acquire such as a channel
+// receive or WaitGroup.Wait) that the ownership model of property C17 lists.  It calls the optional
+// callback installed with VerifSetAccessHook on the goroutine that makes the access and does nothing
+// when no callback is installed.
+
+type verifAccessHook struct{ f func(loc string, write bool) }
+
+var verifAccessHookPtr atomic.Pointer[verifAccessHook]
+
+// VerifSetAccessHook installs f as the callback of every verifAccess (nil: remove it).
+func VerifSetAccessHook(f func(loc string, write bool)) {
+	if f == nil {
+		verifAccessHookPtr.Store(nil)
+		return
+	}
+	verifAccessHookPtr.Store(&verifAccessHook{f: f})
+}
+
+func verifAccess(loc string, write bool) {
+	if h := verifAccessHookPtr.Load(); h != nil {
+		h.f(loc, write)
+	}
+}
